@@ -147,6 +147,11 @@ def strip_views(t):
             if a is b:
                 t = a
                 continue
+            # `np.divide(r, n, out=r) if <dtypes agree> else r / n`: the same value, once written into the buffer of the left operand
+            if isinstance(a, T) and isinstance(b, T) and {a.op, b.op} == {'iop', 'binop'} and a.args[0] == b.args[0] and len(a.args) == 3 and len(b.args) == 3 \
+                    and all(strip_views(x) is strip_views(y) or struct_eq(x, y) for x, y in zip(a.args[1:], b.args[1:])):
+                t = a if a.op == 'binop' else b
+                continue
         if t.op == 'unpack' and t.args[3] is None and isinstance(t.args[0], T) and t.args[0].op in ('tuple', 'list') \
                 and len(t.args[0].args[0]) == t.args[2] and not any(isinstance(x, T) and x.op == 'star' for x in t.args[0].args[0]):
             # a, b = x, y : the i-th target is the i-th element
